@@ -415,31 +415,30 @@ class FileSplicer:
                         self.ed.replace(src.t(q).start, src.t(q).end, ' { Ok(vx_v) => vx_v, Err(vx_e) => { %s return Err(From::from(vx_e)) } }' % gt)
                         applied.append('N16')
 
-        # ---- N20: `fn f(mut self, ..) { B }` -> `fn f(self, ..) { let mut vx_self = self; B[self := vx_self] }`
-        for s in subs:
-            if s.word == 'mutself':
-                q = an.params_open + 1
-                if not (src.is_id(q, 'mut') and src.is_id(q + 1, 'self')):
-                    raise SpliceError('lost anchor: fn %s does not take `mut self`' % key)
+        # ---- N20: `fn f(mut self, ..) { B }` -> `fn f(self, ..) { let mut vx_self = self; B[self := vx_self] }`, and
+        #           `fn f(mut x: T)` -> `fn f(x: T) { let mut x = x; .. }`. Applied to EVERY lifted fn whose signature has a `mut` binding
+        #           (the directives `mutself` / `mutparam` are kept for documentation: an edit that adds or removes a `mut` must not
+        #           make the function unverifiable - Verus rejects `mut` parameters)
+        if it.body_open >= 0 and an.params_open >= 0:
+            q = an.params_open + 1
+            if src.is_id(q, 'mut') and src.is_id(q + 1, 'self'):
                 self.ed.delete(src.t(q).start, src.t(q + 1).start)
                 self.ed.insert(src.t(it.body_open).end, ' let mut vx_self = self; ')
                 for k2 in range(it.body_open + 1, it.body_close):
                     if src.is_id(k2, 'self'):
                         self.ed.replace(src.t(k2).start, src.t(k2).end, 'vx_self')
                 applied.append('N20')
-
-        for s in subs:
-            if s.word == 'mutparam':
-                # N20: `fn f(mut x: T)` -> `fn f(x: T) { let mut x = x; .. }`
-                nm = s.args[0]
-                hit = None
-                for q in range(an.params_open + 1, an.params_close):
-                    if src.is_id(q, 'mut') and src.is_id(q + 1, nm) and src.is_p(q + 2, ':'): hit = q
-                if hit is None:
-                    raise SpliceError('lost anchor: fn %s has no `mut %s` parameter' % (key, nm))
-                self.ed.delete(src.t(hit).start, src.t(hit + 1).start)
-                self.ed.insert(src.t(it.body_open).end, ' let mut %s = %s; ' % (nm, nm))
-                applied.append('N20')
+            depth = 0
+            for q in range(an.params_open + 1, an.params_close):
+                t = src.t(q)
+                if t.kind == 'punct' and t.text in ('(', '[', '{', '<'): depth += 1
+                elif t.kind == 'punct' and t.text in (')', ']', '}', '>'): depth -= 1
+                elif depth == 0 and src.is_id(q, 'mut') and q + 2 < an.params_close and src.is_id(q + 1) and not src.is_id(q + 1, 'self') and src.is_p(q + 2, ':') \
+                        and (q == an.params_open + 1 or src.is_p(q - 1, ',')):
+                    nm = src.t(q + 1).text
+                    self.ed.delete(src.t(q).start, src.t(q + 1).start)
+                    self.ed.insert(src.t(it.body_open).end, ' let mut %s = %s; ' % (nm, nm))
+                    applied.append('N20')
 
         # ---- closures: N6 (parameter patterns) + N15 (closure contracts)
         closures = self.find_closures(it)
@@ -1311,7 +1310,18 @@ class FileSplicer:
                 self.report['items'].append({'kind': kind, 'name': name, 'file': fs.path})
             elif d.word == 'lift' and d.args[0] == 'fn':
                 key = d.args[1]
-                owner, it = self.find_fn(key)
+                try:
+                    owner, it = self.find_fn(key)
+                except SpliceError as e:
+                    # the function no longer exists under this name (renamed / removed / folded into another one): ITS contract cannot be
+                    # placed and its properties are undecided; the rest of the unit is still spliced and verified (callers of a renamed
+                    # function call an unlifted one, which the runner lifts bare)
+                    props = [q for x in d.subs if x.word == 'props' for a in x.args for q in a.split(',') if q]
+                    implicit = [q for x in d.subs if x.word == 'implicit' for a in x.args for q in a.split(',') if q]
+                    self.report['functions'].append({'key': key, 'file': self.fs.path, 'line': 0, 'props': list(props), 'implicit': list(implicit), 'rules': [],
+                                                     'clauses': [], 'loops': 0, 'kind': 'fn', 'assumed_here': False, 'dropped': str(e), 'missing': True})
+                    self.report['file_rules'].append({'file': self.fs.path, 'rule': 'degraded', 'text': 'fn %s: %s - contract not placed, its properties undecided' % (key, e)})
+                    continue
                 if owner is None:
                     attr = self.fn_edits(it, d, key, None)
                     self.ed.insert(it.lo, 'verus!{\n' + attr + '/*@fn %s*/\n' % key)
